@@ -28,7 +28,7 @@ ASSUMPTIONS = ["saved graph files are read by the independent readers of vmon/re
                "vertex; numeric php/subsetcard/op/tseitin forms: degrees), not by replaying draws, except where the command draws nothing before "
                "the generator (randkcnf, randkxor, pitfall, shuffle on deterministic bases)"]
 REQUIRED = ["cli_vs_library_compared", "pbgen_compared", "chains_compared", "graphs_read_back", "promise_checks", "rng_replays",
-            "kthlist2pebbling_compared", "output_option_checks", "graph_file_inputs"] + ["sub_" + s for s in (
+            "kthlist2pebbling_compared", "output_option_checks", "graph_file_inputs", "save_before_modifiers", "file_reuse_checks"] + ["sub_" + s for s in (
                 "and", "or", "true", "false", "bphp", "cliquecoloring", "count", "parity", "cpls", "domset", "ec", "tiling", "matching",
                 "kcolor", "kclique", "kcliquebin", "iso", "subgraph", "ramlb", "op", "tseitin", "peb", "stone", "php", "subsetcard",
                 "pitfall", "ptn", "ram", "rphp", "vdw", "randkcnf", "randkxor", "dimacs")]
@@ -47,13 +47,18 @@ class G:
         return "<%s %s>" % (self.kind, " ".join(self.spec))
 
 
-def render(tokens, tmpdir, tag):
-    """tokens with G slots -> (argv tail, [(kind, path)])"""
+MODIFIERS = ("plantclique", "plantbiclique", "addedges", "splitedges")
+
+
+def render(tokens, tmpdir, tag, save_early=False):
+    """tokens with G slots -> (argv tail, [(kind, path)]).  save_early: the documented `save` option is written
+    before the graph modifiers instead of at the end (the stored graph is the one the formula is built from either way)."""
     out, files = [], []
     for t in tokens:
         if isinstance(t, G):
             path = os.path.join(tmpdir, "%s_%d.%s" % (tag, len(files), FMT[t.kind]))
-            out += t.spec + ["save", FMT[t.kind], path]
+            cut = next((i for i, x in enumerate(t.spec) if x in MODIFIERS), len(t.spec)) if save_early else len(t.spec)
+            out += t.spec[:cut] + ["save", FMT[t.kind], path] + t.spec[cut:]
             files.append((t.kind, path))
         else:
             out.append(str(t))
@@ -401,7 +406,10 @@ def run_command(ctx, tool, sub, opts, nums, gslots, chain, seed, layout=None):
     tmp = tempfile.mkdtemp(prefix="c17-")
     try:
         tokens = [sub] + (layout if layout is not None else list(opts) + list(nums) + list(gslots))
-        tail, files = render(tokens, tmp, "g")
+        save_early = seed % 2 == 0 and any(x in MODIFIERS for t in tokens if isinstance(t, G) for x in t.spec)
+        if save_early:
+            ctx.count("save_before_modifiers")
+        tail, files = render(tokens, tmp, "g", save_early)
         for t in chain:
             tail += ["-T"] + list(t)
         label = "%s %s [seed %d]" % (tool, " ".join(a if not a.startswith(tmp) else "<tmp>/" + os.path.basename(a) for a in tail), seed)
@@ -697,6 +705,58 @@ def case_files(ctx):
         shutil.rmtree(tmp, ignore_errors=True)
 
 
+def case_file_reuse(ctx, rseed):
+    """A graph file named twice in one command, or in successive commands of one process, with modifiers on one use:
+    every use must see the graph of the file."""
+    import cnfgen as g
+    from cnfgen.graphs import Graph
+    r = ctx.rng("c17reuse", rseed)
+    tmp = tempfile.mkdtemp(prefix="c17r-")
+    try:
+        n = 6
+        E = sorted(r.sample([(u, v) for u in range(1, n + 1) for v in range(u + 1, n + 1)], 7))
+        for fmt in ("kthlist", "gml", "dimacs"):
+            path = os.path.join(tmp, "g." + fmt)
+            Gf = Graph(n)
+            for e in E:
+                Gf.add_edge(*e)
+            from cnfgen.graphs import writeGraph
+            writeGraph(Gf, path, "simple", fmt)
+
+            def fresh():
+                H = Graph(n)
+                for e in E:
+                    H.add_edge(*e)
+                return H
+            # (a) successive commands in one process: a modified use first, then a plain use
+            for first in (["matching", path, "addedges", "3"], ["kcolor", "2", path, "plantclique", "4"], ["tiling", path, "splitedges", "2"]):
+                run_cli("cnfgen", first, r.randint(1, 999))
+                for tool in ("cnfgen", "pbgen"):
+                    K = classes(tool)
+                    for tail, ref in ((["matching", path], g.PerfectMatchingPrinciple(fresh(), formula_class=K)),
+                                      (["kcolor", "3", path], g.GraphColoringFormula(fresh(), 3, formula_class=K))):
+                        st, F = run_cli(tool, tail, 1)
+                        ctx.count("file_reuse_checks")
+                        label = "%s %s (after '%s' in the same process)" % (tool, " ".join(os.path.basename(t) if t == path else t for t in tail),
+                                                                           " ".join(os.path.basename(t) if t == path else t for t in first))
+                        if st != "ok":
+                            ctx.violation("%s:file-argument-fails" % tail[0], "%s: %s %r" % (label, st, F))
+                            continue
+                        same_formula(ctx, tail[0] + "[file-reuse]", label, F, ref)
+                        ctx.judged(("file-reuse", fmt, tuple(first[:1]), tool, tail[0]), nontrivial=True, sample={"command": label})
+            # (b) the same file twice in one command, the second use modified: the first must stay the file's graph
+            st, F = run_cli("cnfgen", ["subgraph", "-G", path, "splitedges", "2", "-H", path], 5)
+            st2, F2 = run_cli("cnfgen", ["subgraph", "-G", path, "splitedges", "2", "save", "kthlist", os.path.join(tmp, "big.kthlist"), "-H", path], 5)
+            ctx.count("file_reuse_checks")
+            if st2 == "ok":
+                big = load_graph("simple", os.path.join(tmp, "big.kthlist"))
+                ref = g.SubgraphFormula(big, fresh())
+                same_formula(ctx, "subgraph[file-reuse]", "cnfgen subgraph -G <file> splitedges 2 -H <same file>", F2, ref)
+                ctx.judged(("file-reuse-2", fmt), nontrivial=True)
+    finally:
+        shutil.rmtree(tmp, ignore_errors=True)
+
+
 def strip_comments(text, marker):
     return [l for l in text.splitlines() if not l.startswith(marker)]
 
@@ -799,7 +859,7 @@ def case_output_options(ctx):
 
 def workload(tier, seed):
     n = len(commands())
-    seeds = [seed * 13 + 1] if tier == "quick" else [seed * 13 + i for i in range(1, 21)]
+    seeds = [seed * 13 + 1, seed * 13 + 2] if tier == "quick" else [seed * 13 + i for i in range(1, 21)]
     step = 10
     for lo in range(0, n, step):
         yield "commands", {"lo": lo, "hi": lo + step, "seeds": seeds}
@@ -807,3 +867,5 @@ def workload(tier, seed):
         yield "chains", {"rseed": seed * 1000 + i, "count": 12}
     yield "files", {}
     yield "output_options", {}
+    for i in range(2 if tier == "quick" else 10):
+        yield "file_reuse", {"rseed": seed * 10 + i}
